@@ -119,15 +119,30 @@ def run(rep):
     rep.trusted_base = list(STD_TRUSTED)
     for a in STD_ASSUME:
         rep.assume(a)
-    rep.assume('connect_circuit itself (label mapping, emission loop, interface recomputation, blocks) has no deductive obligation: bounded stand-in only; its right-connection write is additionally covered by C02\'s bounded histories')
+    rep.assume('connect_circuit is proved in LEFT mode without a block name, for up to 2 connector pairs, on two arbitrary well-formed circuits, the attached one without blocks '
+               '(c10_connect.py: top_sort of the attached circuit through its contract proved under C20, name map, filter / mapped / concatenated list views, set_inputs by the any-length proof of C02); '
+               'ghost: a rank bound above all ranks of the base circuit (finite circuits); output / input ORDER of the parts taken from the attached circuit is stated through counts (the base part positionally)')
+    rep.assume('right-connect mode (incl. the listed known finding), named blocks with prefixes, blocks of the attached circuit and more connector pairs are covered by the bounded stand-in only; '
+               'its right-connection write is additionally covered by C02\'s bounded histories')
     it = new_interp()
     pv = Prover(rep, it, 'C10')
     for c in contracts():
         it.contracts.clear()
         pv.run_contract(c)
+    # connect_circuit itself, left mode without a block name, on two arbitrary circuits (c10_connect.py)
+    from .c10_connect import ConnectLeft
+    for k in (0, 1, 2):
+        it.loop_specs.clear()
+        it.contracts.clear()
+        pv.run_contract(ConnectLeft(k))
+    it.loop_specs.clear()
+    it.contracts.clear()
+    it.filter_views = False
+    if hasattr(it, 'concat_label_lists'):
+        del it.concat_label_lists
     a = z3.Bool('a')
     canary(rep, pv, 'C10/canary/left-is-right', [], a == z3.Not(a))
     refuted = pv.discharge(env.NPROC)
     finish_refuted(rep, pv, refuted)
     run_bounded(rep, 'C10', quick)
-    rep.extra['explanation'] = 'wrappers proved to be the documented special cases of connect_circuit (argument forwarding incl. explicit empty connector lists); connect_circuit: bounded stand-in against the composition oracle.'
+    rep.extra['explanation'] = 'wrappers proved to be the documented special cases of connect_circuit (argument forwarding incl. explicit empty connector lists); connect_circuit proved in left mode without a block name on arbitrary circuits; the other modes: bounded stand-in against the composition oracle.'
